@@ -27,7 +27,11 @@ ASSUMPTIONS = [
     'pre-emption at yield points in every run; 30% of the runs are threaded '
     'runs with coinciding end causes that are also pre-empted between source '
     'lines of engineio functions (sys.settrace)',
-    'ASGI server drops sends after the peer went away (uvicorn behaviour)']
+    'ASGI server raises from websocket.send once the peer has gone (uvicorn '
+    '>= 0.28)',
+    'stall runs (a third of the line runs): a pre-empted thread stays away '
+    'for up to 32 ticks of virtual time, at most four times; the oracles '
+    'are widened by the total injected']
 REQUIRED_PROBES = {'quick': [], 'thorough': []}
 
 PROFILE = _gen.profile()
